@@ -14,6 +14,7 @@ import (
 	"bytes"
 	"fmt"
 	"io"
+	"strings"
 
 	"github.com/hattya/go.sh/ast"
 )
@@ -281,6 +282,11 @@ func (p *printer) redir(r *ast.Redir) {
 		switch r.Op {
 		case "<&", ">&":
 		default:
+			p.space()
+		}
+	} else if r.Op == "<<" && len(r.Word) != 0 {
+		if w, ok := r.Word[0].(*ast.Lit); ok && strings.HasPrefix(w.Value, "-") {
+			// avoid "<<-"
 			p.space()
 		}
 	}
